@@ -220,7 +220,10 @@ class SchemaBuilder(
             key = self.visit(key_type)
         if "type" not in key or key["type"] != JsonType.STRING:
             raise ValueError("Mapping types must have string-convertible keys")
-        value = self.visit(value_type)
+        with context_setter(self):
+            # ignore_first_ref can only concern the mapping itself, not its values
+            self._ignore_first_ref = False
+            value = self.visit(value_type)
         if "pattern" in key:
             # keys which don't match the pattern are rejected by the deserialization
             return json_schema(
